@@ -57,6 +57,31 @@ fn handle(req: &Value) -> Value {
                    "errors": errors.iter().map(|e| json!([e.0, e.1, e.2, e.3, e.4, e.5])).collect::<Vec<_>>(),
                    "state": [state.0, state.1, state.2]})
         }
+        "make_diff" => {
+            let hunks = h::rustfmt_diff::make_diff_plain(
+                req["original"].as_str().unwrap_or(""),
+                req["formatted"].as_str().unwrap_or(""),
+                us(&req["context"]),
+            );
+            json!({"hunks": hunks.iter().map(|(a, b, ls)| json!([a, b, ls.iter().map(|(k, s)| json!([k, s])).collect::<Vec<_>>()])).collect::<Vec<_>>()})
+        }
+        "modified_lines" => {
+            let (chunks, printed, reparsed) = h::rustfmt_diff::modified_lines(
+                req["original"].as_str().unwrap_or(""),
+                req["formatted"].as_str().unwrap_or(""),
+            );
+            let conv = |v: &Vec<(u32, u32, Vec<String>)>| v.iter().map(|(a, b, ls)| json!([a, b, ls])).collect::<Vec<_>>();
+            json!({"chunks": conv(&chunks), "printed": printed, "reparsed": reparsed.as_ref().map(conv)})
+        }
+        "emit_pair" => {
+            let out = h::emitter::emit_pair(
+                req["mode"].as_str().unwrap_or(""),
+                req["name"].as_str().unwrap_or("/x.rs"),
+                req["original"].as_str().unwrap_or(""),
+                req["formatted"].as_str().unwrap_or(""),
+            );
+            json!({"out": out})
+        }
         _ => json!({"error": format!("unknown op {op}")}),
     }
 }
